@@ -1,6 +1,7 @@
 package checks
 
 import (
+	"bytes"
 	"encoding/binary"
 	"encoding/json"
 	"fmt"
@@ -622,6 +623,113 @@ func c04Alloc(c *Ctx, only string) {
 	}
 }
 
+var c04Zones = []string{"UTC", "Local", "America/New_York", "America/Chicago", "America/Denver", "America/Los_Angeles", "America/Anchorage", "America/Sao_Paulo", "America/Mexico_City", "America/Toronto", "America/Bogota", "America/Lima", "America/Caracas", "America/Halifax", "America/St_Johns", "America/Phoenix", "America/Havana", "America/Panama", "Europe/London", "Europe/Berlin", "Europe/Paris", "Europe/Madrid", "Europe/Rome", "Europe/Lisbon", "Europe/Moscow", "Europe/Istanbul", "Europe/Athens", "Europe/Helsinki", "Europe/Dublin", "Europe/Amsterdam", "Europe/Vienna", "Europe/Warsaw", "Europe/Kyiv", "Europe/Zurich", "Europe/Oslo", "Europe/Stockholm", "Asia/Tokyo", "Asia/Seoul", "Asia/Shanghai", "Asia/Hong_Kong", "Asia/Singapore", "Asia/Kolkata", "Asia/Dubai", "Asia/Tehran", "Asia/Karachi", "Asia/Dhaka", "Asia/Bangkok", "Asia/Jakarta", "Asia/Manila", "Asia/Kathmandu", "Asia/Jerusalem", "Asia/Riyadh", "Asia/Baghdad", "Asia/Kabul", "Asia/Tashkent", "Asia/Yangon", "Africa/Cairo", "Africa/Lagos", "Africa/Nairobi", "Africa/Johannesburg", "Africa/Monrovia", "Africa/Casablanca", "Australia/Sydney", "Australia/Perth", "Australia/Adelaide", "Australia/Darwin", "Australia/Lord_Howe", "Pacific/Auckland", "Pacific/Chatham", "Pacific/Honolulu", "Pacific/Fiji", "Pacific/Kiritimati", "Atlantic/Reykjavik", "Atlantic/Azores", "Indian/Maldives"}
+
+// c04State: totality must not wear off. Long histories of distinct values of
+// one kind in one process (time zones, regexes, names, durations, strings),
+// each parsed and printed twice; one parser fed 70000 statements; a result
+// that was returned with a nil error stays printable whatever the same parser
+// is asked afterwards (its reader delivering more text after an end of input).
+func c04State(c *Ctx) {
+	r := c.R
+	one := func(label, text string) bool {
+		var perr error
+		if p, pv, stk := mon.Try(func() {
+			q, err := influxql.ParseQuery(text)
+			perr = err
+			if err == nil {
+				_ = q.String()
+			}
+		}); p {
+			r.Violation("panic", map[string]interface{}{"label": "direct", "hex": fmt.Sprintf("%x", text), "input": trunc(text, 200), "why": fmt.Sprintf("%s: %v", label, pv), "stack": stk})
+			return false
+		}
+		_ = perr
+		r.Eval(1)
+		return true
+	}
+	nz := 0
+	for pass := 0; pass < 2; pass++ {
+		for _, z := range c04Zones {
+			if _, err := time.LoadLocation(z); err != nil {
+				continue
+			}
+			nz++
+			if !one("after "+strconv.Itoa(nz)+" statements with distinct time zones", "SELECT v FROM m WHERE time > '2020-01-01 00:00:00' TZ('"+z+"')") {
+				return
+			}
+		}
+	}
+	r.Count("history.time-zones", int64(nz))
+	for i := 0; i < 3000; i++ {
+		n := strconv.Itoa(i)
+		for _, t := range []string{
+			"SELECT v FROM m WHERE h =~ /^(a" + n + "|b" + n + ")$/ AND g !~ /x" + n + ".*/",
+			"SELECT f" + n + " FROM \"m " + n + "\" WHERE s = 'v" + n + "' GROUP BY time(" + strconv.Itoa(i+1) + "s)",
+			"SELECT fn" + n + "(x) FROM /re" + n + "/",
+		} {
+			if !one("after "+n+" rounds of distinct regexes / names / literals", t) {
+				return
+			}
+		}
+	}
+	r.Count("history.distinct-value-rounds", 3000)
+	// one parser, 70000 statements
+	{
+		text := strings.Repeat("SELECT count(), now() FROM m WHERE time > now();", 70000)
+		n := 0
+		var last error
+		if p, pv, stk := mon.Try(func() {
+			ps := influxql.NewParser(strings.NewReader(text))
+			for {
+				st, err := ps.ParseStatement()
+				if err != nil {
+					last = err
+					return
+				}
+				_ = st
+				n++
+				if tok, _, _ := ps.ScanIgnoreWhitespace(); tok != influxql.SEMICOLON {
+					return
+				}
+			}
+		}); p {
+			r.Violation("panic", map[string]interface{}{"label": "direct", "hex": "", "input": "70000 statements read by one parser", "why": fmt.Sprint(pv), "stack": stk})
+		} else if n != 70000 {
+			r.Violation("valid-input-rejected-after-long-use", map[string]interface{}{"label": "direct", "hex": "", "input": "SELECT count(), now() FROM m WHERE time > now(); x 70000, one parser", "why": fmt.Sprintf("statement %d of 70000 identical statements was rejected: %v", n+1, last)})
+		} else {
+			r.Count("history.one-parser-70000-statements", 1)
+		}
+		r.Eval(1)
+	}
+	// a returned result and later calls on the same parser
+	for _, more := range []string{" SELECT c FROM z; SELECT FROM", "; SELECT 1 +", " ; ; SELECT x FROM y", "'"} {
+		buf := &bytes.Buffer{}
+		buf.WriteString("SELECT a FROM x; SELECT b FROM y WHERE h =~ /r/")
+		var before, after string
+		if p, pv, stk := mon.Try(func() {
+			ps := influxql.NewParser(buf)
+			q1, err := ps.ParseQuery()
+			if err != nil {
+				return
+			}
+			before = q1.String()
+			buf.WriteString(more)
+			_, _ = ps.ParseQuery()
+			_, _ = ps.ParseStatement()
+			_, _ = ps.ParseExpr()
+			after = q1.String()
+		}); p {
+			r.Violation("panic-using-returned-result", map[string]interface{}{"label": "direct", "hex": "", "input": "ParseQuery, then more text " + strconv.Quote(more) + " and further calls on the same parser", "why": fmt.Sprint(pv), "stack": stk})
+		} else if before != after {
+			r.Violation("returned-result-changed-by-later-call", map[string]interface{}{"label": "direct", "hex": "", "input": "ParseQuery, then more text " + strconv.Quote(more), "why": fmt.Sprintf("the query returned first printed %q, after later calls on the same parser it prints %q", before, after)})
+		} else {
+			r.Count("history.result-stable-under-later-calls", 1)
+		}
+		r.Eval(1)
+	}
+}
+
 func checkC04(c *Ctx) (string, bool, []string) {
 	r := c.R
 	rule := fmt.Sprintf("grammar-derived texts with 1-4 mutations (range deletion / duplication, splices, hostile fragments: %d kinds incl. NUL, invalid UTF-8, unterminated quotes and comments, stray $ and placeholders), random bytes, token soups, generated statements whose name / literal tokens are placeholders bound to every bindable and unbindable value (malformed UTF-8 and truncated multi-byte units in durations, names, strings and regexes; floats at 2^63 and 2^64; odd json.Number spellings); 25%% with parameter maps over every bindable kind and wrong kinds; structured stress (nesting depth 10..10^4 quick / 10^5 thorough for (, f(, -(, subqueries; chains and lists of 10^4/10^5 elements; tokens up to 128 KB quick / 1 MB thorough; unterminated everything). Every input through ParseQuery, ParseStatement, ParseExpr under recover, hook assertions and the step budget %d*(runes+1)+%d; accepted results are printed, walked and rewritten. One child runs 24,000 (400,000) of the mutated texts on 8 goroutines with independent parsers. Children with journals attribute process-fatal events. Non-trivial = non-empty input; distinct by text hash.", len(c04Hostile), c04K, c04C)
@@ -656,6 +764,7 @@ func checkC04(c *Ctx) (string, bool, []string) {
 		return rule, false, assume
 	}
 	c04Alloc(c, "") // first, while this process does nothing else
+	c04State(c)
 	bin := os.Getenv("VCHECK_BIN")
 	if bin == "" {
 		bin, _ = os.Executable()
